@@ -924,7 +924,7 @@ func runC16(c *Ctx) {
 	// shared with C14: NearestMatch/MultipleMatch keep no scratch state between calls (R14.5); shared with C15: every
 	// archived text is read completely and paired with its own search set when the corpus is loaded (R15.2, R15.4)
 	checkV1SharedWrites(c, p)
-	borrowRules(c, []string{"R15.2", "R15.3", "R15.4", "R15.8", "R15.9", "R15.17"}, runC15)
+	borrowRules(c, []string{"R15.2", "R15.3", "R15.4", "R15.8", "R15.9", "R15.17", "R15.21"}, runC15)
 	// shared with C13: the classifier keeps its own copy of the normaliser list (R13.8) - the exported Normalizers slice it is
 	// built from can be assigned to afterwards
 	if c.R.Filter == nil {
@@ -1171,6 +1171,31 @@ func checkCommonWordsGate(c *Ctx, p *core.Prog) {
 		}
 		c.R.Check(bad == "", "R16.6", "License.NearestMatch returns nil only where the common-words gate (or the classifier) found nothing", p.Pos(nm.Pos()), fmt.Sprintf("%d nil result(s), each controlled by the gate only", nNil),
 			"a nil result depends on "+bad+": a license of the corpus that the classifier identified is reported as no match when its text is presented differently (re-flowed, decorated)")
+	}
+	// R16.10: one common license word is enough: the gate answers true as soon as one of the patterns matches - where it counts
+	// the matches, it compares the count with "at least one". Three texts of the corpus (0BSD, ISC, Beerware) contain exactly
+	// one of the words.
+	{
+		bad := ""
+		nRet := 0
+		for _, b := range gate.Blocks {
+			ret, ok := b.Instrs[len(b.Instrs)-1].(*ssa.Return)
+			if !ok || len(ret.Results) != 1 {
+				continue
+			}
+			nRet++
+			if bo, isBo := core.Unspill(ret.Results[0]).(*ssa.BinOp); isBo {
+				k, isK := core.ConstInt(bo.Y)
+				okCmp := isK && ((bo.Op == token.GTR && k == 0) || (bo.Op == token.GEQ && k == 1) || (bo.Op == token.NEQ && k == 0))
+				if !okCmp && bad == "" {
+					bad = "the number of matching patterns is compared with `" + bo.Op.String() + " " + fmt.Sprint(k) + "` (" + p.Pos(bo.Pos()) + ")"
+				}
+			}
+		}
+		if nRet > 0 {
+			c.R.Check(bad == "", "R16.10", "the common-words gate lets a text with one common word pass", p.Pos(gate.Pos()), "a constant verdict per pattern, or a count compared with at least one",
+				bad+": a license text with a single common word (0BSD, ISC, Beerware) is rejected before it is classified, and NearestMatch returns nil for a text of the corpus")
+		}
 	}
 	rawCallers := 0
 	nCalls := 0
